@@ -394,11 +394,13 @@ def check(case, log):
           fail("acquire-value", "%s: acquire returned %r" % (tid, val))
 
   # a sub-task's value / exception reaches exactly its caller, once
-  for stid, who in tokens.items():
-    stid = stid[4:] if stid.startswith("sub:") else stid
+  for tok, who in tokens.items():
+    is_exc = tok.startswith("sub:")
+    stid = tok[4:] if is_exc else tok
     want_who = [stid.rsplit("/", 1)[0]]
     # an exception that a caller does not catch travels on to that caller's caller
-    while "/" in want_who[-1] and ix.ends.get(want_who[-1], (0, 0, 0, None))[3] == "uncaught":
+    while (is_exc and "/" in want_who[-1] and ix.ends.get(want_who[-1], (0, 0, 0, None))[3] == "uncaught"
+           and ix.steps[want_who[-1]][-1][4] == {"exc": ["SubError", tok]}):
       want_who.append(want_who[-1].rsplit("/", 1)[0])
     want_who = [w for w in want_who if not is_poisoned(w)]
     who = [w for w in who if not is_poisoned(w)]
